@@ -8,14 +8,24 @@ Streams
           `.match`/`.search` read from the call site) on random strings (exact comparison);
           `quote_split(";", .)` (statement separation) on random strings and on every word over
           {', ", ;, a} up to a fixed length.
-  unit  : generated executable parts (AST -> text -> random legal layout -> file -> real FORD
-          `Project` in-process):
+  unit  : generated units (universe of names -> specification part + executable part as ASTs ->
+          text -> random legal layout -> file -> real FORD `Project` in-process).  The unit under
+          test is a module procedure (host association), a main program, a procedure of a second
+          module or an external procedure (USE association); it may have internal procedures, which
+          are units under test themselves (host association from the unit).  The specification part
+          is generated too (round 4): every variable / array / dummy argument / result variable /
+          external procedure in one of the declaration forms of the language (entity declaration,
+          DIMENSION / ALLOCATABLE / POINTER / EXTERNAL / INTENT attribute or statement in any
+          letter case and order, interface block, type only, implicit typing).  Per unit:
           (a0) correspondence: the reader's statements of the executable part == the Lean
               `unitStatements` of the logical lines (`;` outside literals, literals with free
               content: other quote kind, doubled delimiter, `;`, `!`, `&`, call-like text);
           (a) correspondence: `unit.calls` before `correlate()` == the Lean `runUnit` on the
-              statements the reader delivers; after `correlate()` the kept chains of length 1
-              == the Lean `resolve1`;
+              statements the reader delivers for the unit itself; after `correlate()` the kept
+              chains of length 1 == the Lean `keptCalls` (scope model over the generated EXTERNAL
+              filter, merge order of `get_label_item` and removed classes);
+          (a'') correspondence: `unit.variables` after `_cleanup` == the Lean `scopeVarNames` of the
+              generated specification part; dummy arguments and result variable as generated;
           (b) property oracle: the identities in `unit.calls` after `correlate()` are exactly
               the user procedures the AST invokes (`spec`, structural recursion on the AST),
               each once.
@@ -85,13 +95,20 @@ class Universe:
             else:
                 self.exts.append("init")       # external subroutine `init` and bound `init`
         self.unit_kind = rng.choice(["subroutine", "subroutine", "function", "program"])
+        self.name = UNIT_NAME
+        # where the unit lives: in the module that defines the procedures and types (host
+        # association), in a main program or in a second module (USE association)
+        # or as an external procedure in the file (USE association, no host)
+        k = rng.random()
+        self.ctx = ("program" if self.unit_kind == "program" else
+                    "other-module" if k < 0.16 else "external" if k < 0.28 else "same-module")
         # procedures defined in the module (superset of the ones the unit may call)
         self.module_funcs = list(self.funcs)
         self.module_subs = list(self.subs)
         # a local array that hides a host-associated module procedure of the same name
-        # (only legal for host association, i.e. not in the program that USEs the module)
+        # (only legal for host association, i.e. not in a unit that USEs the module)
         self.shadow = None
-        if self.unit_kind != "program" and rng.random() < 0.2:
+        if self.ctx == "same-module" and rng.random() < 0.2:
             cands = [f for f in FUNC_POOL + SUB_POOL if f not in self.funcs and f not in self.subs]
             self.shadow = rng.choice(cands)
             if self.shadow in FUNC_POOL:
@@ -99,6 +116,510 @@ class Universe:
             else:
                 self.module_subs.append(self.shadow)
             self.arrs.append(self.shadow)
+        # generic interfaces of the module over some of its procedures: a reference to the generic
+        # name invokes a user procedure and is recorded as that generic interface
+        self.generics = {}
+        if rng.random() < 0.25:
+            if rng.random() < 0.6:
+                self.generics["genf"] = ("function", rng.sample(self.module_funcs, min(len(self.module_funcs), rng.choice([1, 2]))))
+                self.funcs.append("genf")
+            if not self.generics or rng.random() < 0.4:
+                self.generics["gensub"] = ("subroutine", rng.sample(self.module_subs, min(len(self.module_subs), rng.choice([1, 2]))))
+                self.subs.append("gensub")
+        # internal procedures of the unit (round 4): further units under test; they see the
+        # unit's entities by host association and are called from it and from each other
+        ints = []
+        if rng.random() < 0.3:
+            for _ in range(rng.choice([1, 1, 2])):
+                kind = rng.choice(["subroutine", "function"])
+                pool = INT_POOL_F if kind == "function" else INT_POOL_S
+                ints.append((rng.choice([p for p in pool if p not in [i[0] for i in ints]]), kind))
+        self.internal_names = [i[0] for i in ints]
+        for nm, kind in ints:
+            (self.funcs if kind == "function" else self.subs).append(nm)
+        # the specification part of the unit under test (round 4): every entity in one of the
+        # declaration forms the language offers
+        self.ro_arrs = []
+        self.spec = SpecPart(rng, self)
+        self.internals = [InnerUniverse(rng, self, nm, kind) for nm, kind in ints]
+
+    @property
+    def warrs(self):
+        """arrays that may be assigned to"""
+        return [a for a in self.arrs if a not in self.ro_arrs] or [self.garr]
+
+    def units(self):
+        return [self] + self.internals
+
+
+class InnerUniverse:
+    """An internal procedure of the unit under test: it may call what its host may call (the
+    internal procedures included), sees the host's arrays, objects and external declarations by
+    host association, and declares dummy arguments and local arrays of its own - one of which may
+    hide a host-associated procedure."""
+
+    def __init__(self, rng: random.Random, host: Universe, name: str, kind: str):
+        self.host, self.name, self.unit_kind = host, name, kind
+        self.ctx = "internal"
+        self.funcs, self.subs = list(host.funcs), list(host.subs)
+        self.extf, self.exts = list(host.extf), list(host.exts)
+        self.arrs = [a for a in host.arrs if a != UNIT_NAME]
+        self.garr, self.types, self.collide, self.shadow = host.garr, host.types, host.collide, None
+        self.ro_arrs = list(host.ro_arrs)
+        self.module_funcs, self.module_subs = host.module_funcs, host.module_subs
+        self.generics = host.generics
+        self.internals = []
+        self.spec = InnerSpec(rng, self)
+
+    @property
+    def warrs(self):
+        return [a for a in self.arrs if a not in self.ro_arrs] or [self.garr]
+
+
+# --------------------------------------------------------------------------
+# the specification part of the unit under test
+# --------------------------------------------------------------------------
+
+UNIT_NAME = "main_unit"
+INT_POOL_F = ["inner_f", "sinh_x", "absx", "locf"]
+INT_POOL_S = ["helper", "do_step", "inner_s", "printx"]
+ARRAY_TYPES = ["real", "integer", "real(8)", "real(kind=8)", "double precision", "complex", "logical",
+               "character(len=8)", "integer(kind=4)", "type(t0)", "doubleprecision", "character*8"]
+HARMLESS_ATTRS = ["save", "target", "volatile", "asynchronous"]
+
+
+def rcase(r: random.Random, w: str) -> str:
+    k = r.random()
+    if k < 0.5:
+        return w
+    if k < 0.72:
+        return w.upper()
+    if k < 0.85:
+        return w.capitalize()
+    return "".join(c.upper() if r.random() < 0.5 else c for c in w)
+
+
+class SpecBase:
+    """A specification part: a list of statements
+         ("T", type text, [attribute as spelled], `::` present, [(name as spelled, suffix)])
+         ("A", keyword as spelled, `::` present, [(name as spelled, array spec)])     attribute statement
+         ("X", text)                                                                  anything else
+       plus the dummy arguments and the form of the function result.  What each name *is* (variable,
+       dummy argument, result variable, external procedure) is fixed by the declaration form chosen
+       here; the oracle uses only that, never the parser's view."""
+
+    def __init__(self, r: random.Random):
+        self.r = r
+        self.stmts = []
+        self.args = []
+        self.ret = None            # name of the result variable (functions)
+        self.ret_typed = False     # type given in the function statement
+        self.result_clause = None
+        self.head_prefix = ""
+        self.ext_form = {}         # external procedure -> declaration form
+        self.typed_only_ext = []   # functions declared by type only (no EXTERNAL anywhere)
+        self.implicit_arrays = []  # arrays that get their shape from DIMENSION/COMMON and no type
+        self.iface_ext = []        # external procedures declared by an interface block
+        self.forms = []            # coverage notes
+        self.head = ""
+
+    def note(self, k):
+        self.forms.append(k)
+
+    def T(self, typ, attrs, ents, dc=None):
+        r = self.r
+        need = bool(attrs) or any("=" in sfx for _, sfx in ents)
+        if dc is None:
+            dc = need or r.random() < 0.75
+        return ("T", self.type_case(typ), [self.attr_case(a) for a in attrs], dc or need,
+                [(rcase(r, n) if r.random() < 0.3 else n, sfx) for n, sfx in ents])
+
+    def A(self, kw, names, dc=None):
+        r = self.r
+        return ("A", rcase(r, kw), r.random() < 0.4 if dc is None else dc,
+                [(rcase(r, n) if r.random() < 0.3 else n, d) for n, d in names])
+
+    def extras(self):
+        return self.r.sample(HARMLESS_ATTRS, self.r.choice([0, 0, 0, 1, 2]))
+
+    def shuffled(self, xs):
+        xs = list(xs)
+        self.r.shuffle(xs)
+        return xs
+
+    def type_case(self, typ):
+        return rcase(self.r, typ) if not typ.startswith(("type", "class")) else typ
+
+    def attr_case(self, a):
+        # keyword in any case; blanks inside `intent ( in )` are kept as chosen
+        return rcase(self.r, a)
+
+    def interface_block(self, procs):
+        """("I", lines): an interface block with the interface bodies of the given external procedures"""
+        r = self.r
+        L = [rcase(r, "interface")]
+        for nm, kind in procs:
+            if kind == "function":
+                L += [f"  function {nm}(p1, p2, p3) result(r)", "    real, optional :: p1, p2, p3", "    real :: r",
+                      f"  end function {nm}"]
+            else:
+                L += [f"  subroutine {nm}(p1, p2, p3)", "    real, optional :: p1, p2, p3", f"  end subroutine {nm}"]
+        L.append(r.choice(["end interface", "END INTERFACE", "endinterface"]))
+        return ("I", L)
+
+    def array_decl(self, a, typ, d, allow_dummy, allow_param):
+        """one array in one of the declaration forms; returns (form, statements, is dummy, read-only)"""
+        r = self.r
+        T, A, extras = self.T, self.A, self.extras
+        k = r.random()
+        dummy = ro = False
+        if k < 0.20:
+            form, g = "entity-dims", [T(typ, extras(), [(a, d)])]
+        elif k < 0.34:
+            form, g = "dimension-attr", [T(typ, self.shuffled(["dimension" + d] + extras()), [(a, "")])]
+        elif k < 0.44:
+            form, g = "no-double-colon", [T(typ, [], [(a, d)], dc=False)]
+        elif k < 0.58:
+            form, g = "dimension-stmt", [T(typ, [], [(a, "")]), A("dimension", [(a, d)])]
+            if r.random() < 0.25:
+                g.reverse()
+        elif k < 0.70:
+            at = r.choice(["allocatable", "pointer"])
+            form = at + "-attr"
+            g = [T(typ, [at], [(a, "(:,:)")])] if r.random() < 0.5 else [T(typ, self.shuffled(["dimension(:,:)", at]), [(a, "")])]
+        elif k < 0.78:
+            at = r.choice(["allocatable", "pointer", "target"])
+            form = at + "-stmt"
+            g = [T(typ, [], [(a, "")]), A(at, [(a, "(:,:)" if at != "target" else d)])]
+        elif k < 0.90 and allow_dummy:
+            form = "dummy-array"
+            dummy = True
+            dd = r.choice([d, "(:,:)", "(10,*)"])
+            kk = r.random()
+            if kk < 0.6:
+                g = [T(typ, [r.choice(["intent(in)", "intent(inout)", "intent(in out)", "intent (out)"])] + (["optional"] if r.random() < 0.2 else []),
+                       [(a, dd)])]
+            elif kk < 0.8:
+                g = [T(typ, [], [(a, dd)])]
+            else:
+                g = [T(typ, [], [(a, dd)]), A(r.choice(["intent(in)", "optional", "intent(inout)"]), [(a, "")])]
+        elif k < 0.95 and allow_param and typ != "type(t0)":
+            form = "parameter-array"
+            ro = True
+            val = {"logical": ".false.", "complex": "(0.0, 1.0)"}.get(typ, "'ab'" if typ.startswith("character") else "1")
+            dim_attr = r.random() < 0.5
+            init = f" = reshape([{val}, {val}, {val}, {val}], [2, 2])"
+            g = [T(typ, self.shuffled(["parameter"] + (["dimension(2,2)"] if dim_attr else [])),
+                   [(a, ("" if dim_attr else "(2,2)") + init)])]
+        else:
+            form, g = "entity-dims", [T(typ, [], [(a, d)])]
+        return form, g, dummy, ro
+
+    # ---- text
+    def lines(self) -> list[str]:
+        out = []
+        for st in self.stmts:
+            if st[0] == "X":
+                out.append(st[1])
+            elif st[0] == "I":
+                out.extend(st[1])
+            elif st[0] == "T":
+                _, typ, attrs, dc, ents = st
+                sep = "," if len(out) % 3 == 0 else ", "
+                head = typ + "".join(sep + a for a in attrs)
+                out.append(head + (" :: " if dc else " ") + ", ".join(n + sfx for n, sfx in ents))
+            else:
+                _, kw, dc, names = st
+                if kw.lower() == "parameter":
+                    out.append(kw + " (" + ", ".join(n + sfx for n, sfx in names) + ")")
+                else:
+                    out.append(kw + (" :: " if dc else " ") + ", ".join(n + sfx for n, sfx in names))
+        return out
+
+    def line_mask(self) -> list[bool]:
+        """per line of `lines()`: is it a statement of the unit itself (False: it belongs to a nested
+        container - an interface block - which consumes it)"""
+        out = []
+        for st in self.stmts:
+            out.extend([False] * len(st[1]) if st[0] == "I" else [True])
+        return out
+
+    # ---- the structured view the model is given
+    def model_fields(self) -> list[str]:
+        out = []
+        for st in self.stmts:
+            if st[0] == "T":
+                out.append("T|" + ";".join(st[2]) + "|" + ";".join(n for n, _ in st[4]))
+            elif st[0] == "A":
+                out.append("A|" + st[1] + "|" + ";".join(n for n, _ in st[3]))
+        return out
+
+
+class SpecPart(SpecBase):
+    """Generated specification part of the unit under test (module procedure or main program)."""
+
+    def __init__(self, r: random.Random, u: "Universe"):
+        super().__init__(r)
+        prog = u.unit_kind == "program"
+        groups = []                # each group = list of statements that stay in this order
+        note, T, A, extras = self.note, self.T, self.A, self.extras
+
+        # ---- scalars
+        for typ, names in (("real", ["x", "y", "z"]), ("integer", ["i", "j", "n"]), ("logical", ["ok"])):
+            k = r.random()
+            if k < 0.6:
+                groups.append([T(typ, extras() if r.random() < 0.2 else [], [(n, "") for n in names])])
+            elif k < 0.8:
+                init = {"real": " = 0.0", "integer": " = 0", "logical": " = .false."}[typ]
+                groups.append([T(typ, [], [(n, init if r.random() < 0.5 else "") for n in names])])
+            else:
+                for n in names:
+                    groups.append([T(typ, extras(), [(n, "")])])
+        groups.append([T(r.choice(["character(len=20)", "character(20)", "character*20", "character(len=20, kind=1)"]), [], [("s", "")])])
+        if r.random() < 0.25:
+            note("parameter-statement")
+            groups.append([T("integer", [], [("n2", "")]), ("A", rcase(r, "parameter"), False, [("n2", " = 3")])])
+        if r.random() < 0.15:
+            note("data-statement")
+            groups.append([("A", rcase(r, "data"), False, [("x", " /1.0/")])])
+        # ---- dummy argument d1 and the function result
+        if not prog:
+            self.args.append("d1")
+            k = r.random()
+            if k < 0.3:
+                groups.append([T("real", [], [("d1", "")])])
+            elif k < 0.75:
+                groups.append([T("real", r.choice([["intent(in)"], ["intent(in)", "optional"], ["intent (in)"], ["intent( in )"],
+                                                   ["intent(inout)"], ["intent(in out)"], ["value"]]), [("d1", "")])])
+            else:
+                note("intent-statement")
+                groups.append([T("real", [], [("d1", "")]), A(r.choice(["intent(in)", "intent (in)", "optional"]), [("d1", "")])])
+        if u.unit_kind == "function":
+            k = r.random()
+            dims = r.choice(["(10,10)", "(10, 10)", "(5,5)"])
+            if k < 0.40:
+                self.ret, self.result_clause = "res", "res"
+                groups.append([T("real", [], [("res", "")])])
+            elif k < 0.55:
+                note("array-result")
+                self.ret, self.result_clause = "res", "res"
+                groups.append([T("real", [], [("res", dims)])] if r.random() < 0.6 else
+                              [T("real", [], [("res", "")]), A("dimension", [("res", dims)])])
+                u.arrs.append("res")
+            elif k < 0.65:
+                note("typed-function-statement")
+                self.ret, self.result_clause, self.ret_typed = "res", "res", True
+                self.head_prefix = r.choice(["real ", "REAL ", "real(8) ", "pure real ", "double precision "])
+            elif k < 0.80:
+                note("result-is-function-name")
+                self.ret = UNIT_NAME
+                groups.append([T("real", [], [(UNIT_NAME, "")])])
+            elif k < 0.92:
+                note("array-result-is-function-name")
+                self.ret = UNIT_NAME
+                groups.append([T("real", [], [(UNIT_NAME, dims)])])
+                u.arrs.append(UNIT_NAME)
+            else:
+                note("typed-function-statement")
+                self.ret, self.ret_typed = UNIT_NAME, True
+                self.head_prefix = r.choice(["real ", "Real ", "integer "])
+        # ---- arrays
+        for a in list(u.arrs):
+            if a in ("res", UNIT_NAME):
+                continue
+            typ = r.choice(ARRAY_TYPES)
+            d = r.choice(["(10,10)", "(10, 10)", "(0:9, 10)", "(10,10)"])
+            form, g, dummy, ro = self.array_decl(a, typ, d, allow_dummy=(not prog and a != u.shadow), allow_param=True)
+            if dummy:
+                self.args.append(a)
+            if ro:
+                u.ro_arrs.append(a)
+            note("array:" + form)
+            groups.append(g)
+        # ---- allocatables used by ALLOCATE
+        k = r.random()
+        if k < 0.5:
+            groups.append([T("real", ["allocatable"], [("pv", "(:)"), ("pm", "(:,:)")])])
+        elif k < 0.75:
+            groups.append([T("real", self.shuffled(["dimension(:)", "allocatable"]), [("pv", "")]),
+                           T("real", self.shuffled(["allocatable", "dimension(:,:)"]), [("pm", "")])])
+        else:
+            groups.append([T("real", [], [("pv", ""), ("pm", "")]), A("allocatable", [("pv", "(:)"), ("pm", "(:,:)")])])
+        # ---- objects
+        objs = dict(OBJS)
+        dummy_obj = None
+        if not prog and r.random() < 0.2:
+            dummy_obj = r.choice(sorted(objs))
+            note("dummy-object")
+            self.args.append(dummy_obj)
+        if r.random() < 0.5 and dummy_obj is None:
+            groups.append([T("type(t1)", extras() if r.random() < 0.2 else [], [("a", ""), ("c", "")])])
+            groups.append([T(r.choice(["type(t2)", "type (t2)", "type( t2 )"]), [], [("b", "")])])
+        else:
+            for o, t in objs.items():
+                if o == dummy_obj:
+                    groups.append([T(r.choice([f"class({t})", f"type({t})", f"class ({t})"]), [r.choice(["intent(inout)", "intent(in)"])], [(o, "")])])
+                else:
+                    groups.append([T(f"type({t})", ["target"] if r.random() < 0.15 else [], [(o, "")])])
+        # ---- external procedures
+        ext_stmt_names = []
+        iface_names = []
+        for f in u.extf:
+            k = r.random()
+            ftype = r.choice(["real", "real", "double precision", "integer", "real(8)", "logical"])
+            if k < 0.20:
+                form = "undeclared"
+            elif k < 0.30:
+                form = "interface-block"
+                iface_names.append((f, "function"))
+            elif k < 0.58:
+                form = "external-attr"
+                groups.append([T(ftype, ["external"], [(f, "")])])
+            elif k < 0.78:
+                form = "type+external-stmt"
+                groups.append([T(ftype, [], [(f, "")])])
+                ext_stmt_names.append(f)
+            elif k < 0.90:
+                form = "external-stmt"
+                ext_stmt_names.append(f)
+            else:
+                form = "type-only"
+                self.typed_only_ext.append(f)
+                groups.append([T(ftype, [], [(f, "")])])
+            self.ext_form[f] = form
+            note("extf:" + form)
+        for sname in u.exts:
+            k = r.random()
+            if k < 0.45:
+                self.ext_form[sname] = "external-stmt"
+                ext_stmt_names.append(sname)
+            elif k < 0.6:
+                self.ext_form[sname] = "interface-block"
+                iface_names.append((sname, "subroutine"))
+            else:
+                self.ext_form[sname] = "undeclared"
+            note("exts:" + self.ext_form[sname])
+        # explicit interfaces: one interface block per procedure or one block for several
+        r.shuffle(iface_names)
+        while iface_names:
+            nn = r.randint(1, len(iface_names))
+            groups.append([self.interface_block(iface_names[:nn])])
+            self.iface_ext += [x for x, _ in iface_names[:nn]]
+            iface_names = iface_names[nn:]
+        r.shuffle(ext_stmt_names)
+        while ext_stmt_names:
+            nn = r.randint(1, len(ext_stmt_names))
+            groups.append([A("external", [(x, "") for x in ext_stmt_names[:nn]])])
+            ext_stmt_names = ext_stmt_names[nn:]
+        # ---- implicit typing (main programs only: the module says IMPLICIT NONE)
+        self.implicit_none = True
+        if prog and r.random() < 0.25:
+            self.implicit_none = False
+            if r.random() < 0.7:
+                nm = r.choice(["w2", "c1", "hv"])
+                note("implicitly-typed-array")
+                self.implicit_arrays.append(nm)
+                u.arrs.append(nm)
+                groups.append([A("dimension", [(nm, "(10,10)")])] if r.random() < 0.5 else
+                              [("X", rcase(r, "common") + " /blk/ " + nm + "(10,10), c2")])
+        r.shuffle(groups)
+        # dummy arguments in a random order
+        r.shuffle(self.args)
+        pre = []
+        # USE association: the statement stands in the unit itself or (second module) in its host
+        self.use_in_unit = prog or u.ctx == "external" or (u.ctx == "other-module" and r.random() < 0.5)
+        if self.use_in_unit:
+            pre.append(("X", r.choice(["use m_types", "use m_types", "USE m_types", "use :: m_types", "use, non_intrinsic :: m_types"])))
+        if prog:
+            if self.implicit_none:
+                pre.append(("X", rcase(r, "implicit none")))
+        elif r.random() < 0.2:
+            pre.append(("X", "implicit none"))
+        self.stmts = pre + [st for g in groups for st in g]
+        if r.random() < 0.1:
+            self.stmts.append(("X", "save"))
+        # ---- the unit's first statement
+        if prog:
+            self.head = f"program {UNIT_NAME}"
+        elif u.unit_kind == "function":
+            self.head = (self.head_prefix + f"function {UNIT_NAME}(" + ", ".join(self.args) + ")"
+                         + (f" result({self.result_clause})" if self.result_clause else ""))
+        else:
+            self.head = f"subroutine {UNIT_NAME}(" + ", ".join(self.args) + ")"
+
+
+class InnerSpec(SpecBase):
+    """Specification part of an internal procedure: its dummy arguments, its result variable and
+    0-2 local arrays (new names, the name of a host array again, or the name of a procedure of the
+    module, which the local array then hides); everything else is host-associated."""
+
+    def __init__(self, r: random.Random, iu: "InnerUniverse"):
+        super().__init__(r)
+        host = iu.host
+        note, T, A = self.note, self.T, self.A
+        # what the host declared is seen here too
+        self.typed_only_ext = list(host.spec.typed_only_ext)
+        self.implicit_arrays = list(host.spec.implicit_arrays)
+        self.iface_ext = list(host.spec.iface_ext)
+        groups = []
+        self.args = ["k1"]
+        groups.append([T("integer", r.choice([[], ["intent(in)"], ["intent(in)", "optional"], ["value"]]), [("k1", "")])])
+        prefix = r.choice(["", "", "recursive ", "pure "])
+        if iu.unit_kind == "function":
+            self.ret = self.result_clause = "r_"
+            k = r.random()
+            if k < 0.6:
+                groups.append([T("real", [], [("r_", "")])])
+            elif k < 0.8:
+                note("inner:array-result")
+                groups.append([T("real", [], [("r_", "(10,10)")])])
+                iu.arrs.append("r_")
+            else:
+                note("inner:typed-function-statement")
+                self.ret_typed = True
+                prefix += r.choice(["real ", "integer ", "REAL "])
+        for _ in range(r.choice([0, 1, 1, 2])):
+            k = r.random()
+            hidden = [p for p in host.module_funcs + host.module_subs if p not in host.internal_names]
+            if k < 0.4:
+                cands = [n for n in ["loc1", "tmpv", "wk", "sin3"] if n not in iu.arrs]
+                if not cands:
+                    continue
+                nm, what = r.choice(cands), "new"
+            elif k < 0.7 and hidden:
+                nm, what = r.choice(hidden), "hides-module-procedure"
+                if nm in iu.arrs:
+                    continue
+                for lst in (iu.funcs, iu.subs):
+                    if nm in lst:
+                        lst.remove(nm)
+            else:
+                cands = [a for a in iu.arrs if a not in ("res", "r_") and a not in self.args and a not in iu.ro_arrs
+                         and a not in self.implicit_arrays]
+                if not cands:
+                    continue
+                nm, what = r.choice(cands), "redeclares-host-array"
+            if any(nm == n for g in groups for st in g if st[0] == "T" for n, _ in st[4]):
+                continue
+            form, g, dummy, _ = self.array_decl(nm, r.choice(ARRAY_TYPES), r.choice(["(10,10)", "(10, 10)"]),
+                                                allow_dummy=True, allow_param=False)
+            if dummy:
+                self.args.append(nm)
+            if nm not in iu.arrs:
+                iu.arrs.append(nm)
+            note(f"inner:local-array:{what}:{form}")
+            groups.append(g)
+        # a local EXTERNAL declaration of a function the host does not declare by type
+        cands = [f for f in iu.extf if host.spec.ext_form.get(f) in ("undeclared", "external-stmt")]
+        if cands and r.random() < 0.25:
+            f = r.choice(cands)
+            note("inner:external-attr")
+            groups.append([T(r.choice(["real", "integer"]), ["external"], [(f, "")])])
+        r.shuffle(groups)
+        r.shuffle(self.args)
+        self.stmts = ([("X", "implicit none")] if r.random() < 0.2 else []) + [st for g in groups for st in g]
+        self.head = (prefix + f"{iu.unit_kind} {iu.name}(" + ", ".join(self.args) + ")"
+                     + (f" result({self.result_clause})" if self.result_clause else ""))
 
 
 # --------------------------------------------------------------------------
@@ -263,7 +784,7 @@ class Gen:
         if k < 0.45:
             return ("var", r.choice(SCALARS))
         if k < 0.75:
-            return ("arr", r.choice(self.u.arrs + [self.u.garr]), self.subs(1, 1))
+            return ("arr", r.choice(self.u.warrs + [self.u.garr]), self.subs(1, 1))
         o, t = self.obj()
         if k < 0.88:
             return ("comp", o, [(r.choice(self.u.types[t]["scalars"]), None)])
@@ -380,10 +901,10 @@ class Gen:
             return self.alloc_stmt()
         if k < 0.56:
             self.note("where-stmt")
-            return ("wherestmt", self.expr(1), ("assign", ("arr", r.choice(self.u.arrs), [("slice", None, None)]), self.expr(1)))
+            return ("wherestmt", self.expr(1), ("assign", ("arr", r.choice(self.u.warrs), [("slice", None, None)]), self.expr(1)))
         if k < 0.58:
             self.note("forall")
-            return ("forall", "i", ("num", "1"), self.expr(2), ("assign", ("arr", r.choice(self.u.arrs), [("var", "i")]), self.expr(1)))
+            return ("forall", "i", ("num", "1"), self.expr(2), ("assign", ("arr", r.choice(self.u.warrs), [("var", "i")]), self.expr(1)))
         if k < 0.62:
             return self.labelled_or_goto()
         # ---- constructs
@@ -409,7 +930,7 @@ class Gen:
             return ("select", self.expr(1), cases, self.body(depth, 1, 1) if r.random() < 0.5 else None)
         if k < 0.85:
             self.note("where-construct")
-            mk = lambda: ("assign", ("arr", r.choice(self.u.arrs), [("slice", None, None)]), self.expr(1))
+            mk = lambda: ("assign", ("arr", r.choice(self.u.warrs), [("slice", None, None)]), self.expr(1))
             return ("whereblock", self.expr(1), [mk() for _ in range(r.randint(1, 2))],
                     [mk()] if r.random() < 0.4 else None)
         if k < 0.93:
@@ -769,8 +1290,12 @@ class Spec:
         self.sync = False
 
     def proc_id(self, name):
+        if name in self.u.generics:
+            return ("generic", name)    # generic interface of the module
         if name in self.u.funcs or name in self.u.subs:
             return ("proc", name)
+        if name in self.u.spec.iface_ext:
+            return ("iface", name)      # explicit interface (interface block) of an external procedure
         return ("name", name)
 
     def invoke(self, ident, last):
@@ -971,6 +1496,8 @@ def classify_diff(spec: Spec, missing: set, extra: set, dup: list) -> tuple[set,
         ctxs = {c for i, c in spec.calls if i == m}
         if len(idents_by_last.get(last, ())) > 1:
             classes.add("C08-dedup-last-chain-element")
+        elif m[0] == "name" and m[1] in spec.u.spec.typed_only_ext:
+            classes.add("C08-typed-external-function-dropped")
         elif ctxs and ctxs <= {"labelled-call-noargs", "computed-goto"}:
             if "labelled-call-noargs" in ctxs:
                 classes.add("C08-labelled-call-without-arglist")
@@ -981,6 +1508,8 @@ def classify_diff(spec: Spec, missing: set, extra: set, dup: list) -> tuple[set,
     for e in sorted(extra, key=str):
         if e[0] == "name" and e[1] in spec.block_arrays:
             classes.add("C08-block-local-array-recorded")
+        elif e[0] == "name" and e[1] in spec.u.spec.implicit_arrays:
+            classes.add("C08-implicitly-typed-array-recorded")
         elif e == ("name", "images") and spec.sync:
             classes.add("C08-sync-images-keyword-recorded")
         elif e[0] in ("name", "proc") and e[-1] in spec.format_noblank_heads:
@@ -1014,6 +1543,8 @@ def module_text(u: Universe) -> list[str]:
             for b in td["bound"]:
                 L.append(f"    procedure :: {b} => {tn}_{b}")
         L.append(f"  end type {tn}")
+    for g, (_, procs) in u.generics.items():
+        L += [f"  interface {g}", "    module procedure " + ", ".join(procs), f"  end interface {g}"]
     L.append("contains")
     for tn, td in u.types.items():
         for b, kind in td["bound"].items():
@@ -1031,43 +1562,44 @@ def module_text(u: Universe) -> list[str]:
     return L
 
 
-def decl_lines(u: Universe) -> list[str]:
-    L = ["real :: x, y, z", "integer :: i, j, n", "logical :: ok", "character(len=20) :: s"]
-    for k, a in enumerate(u.arrs):
-        L.append([f"real :: {a}(10, 10)", f"integer, dimension(10,10) :: {a}", f"real :: {a}(10,10)"][k % 3])
-    L.append("real, allocatable :: pv(:), pm(:,:)")
-    for o, t in OBJS.items():
-        L.append(f"type({t}) :: {o}")
-    return L
+def unit_text(cu, per: dict) -> list[str]:
+    """physical lines of one unit (with its internal procedures)"""
+    t = [cu.spec.head] + ["  " + d for d in cu.spec.lines()] + per[cu.name]["phys"]
+    if cu.internals:
+        t.append(per[cu.name].get("contains", "contains"))
+        for iu in cu.internals:
+            t += ["  " + l for l in unit_text(iu, per)]
+    t.append(f"end {cu.unit_kind} {cu.name}")
+    return t
 
 
-UNIT_NAME = "main_unit"
-
-
-def build_file(u: Universe, exec_lines: list[str]) -> tuple[list[str], str]:
-    """returns (physical lines, header of the unit under test)"""
+def build_file(u: Universe, per: dict) -> list[str]:
+    """physical lines of the generated file"""
     mod = module_text(u)
-    decls = ["  " + d for d in decl_lines(u)]
-    if u.unit_kind == "program":
-        head = f"program {UNIT_NAME}"
-        unit = [head, "  use m_types", "  implicit none"] + decls + exec_lines + [f"end program {UNIT_NAME}"]
-        return mod + ["end module m_types", ""] + unit, head
-    if u.unit_kind == "function":
-        head = f"function {UNIT_NAME}(d1) result(res)"
-        unit = [head, "    real :: d1, res"] + decls + exec_lines + [f"end function {UNIT_NAME}"]
-    else:
-        head = f"subroutine {UNIT_NAME}(d1)"
-        unit = [head, "    real :: d1"] + decls + exec_lines + [f"end subroutine {UNIT_NAME}"]
-    return mod + unit + ["end module m_types"], head
+    unit = unit_text(u, per)
+    if u.ctx in ("program", "external"):
+        return mod + ["end module m_types", ""] + unit
+    if u.ctx == "other-module":
+        top = ["module m_unit"] + ([] if u.spec.use_in_unit else ["  use m_types"]) + ["  implicit none", "contains"]
+        return mod + ["end module m_types", ""] + top + unit + ["end module m_unit"]
+    return mod + unit + ["end module m_types"]
 
 
-def visible_names(u: Universe):
-    vs = ["x", "y", "z", "i", "j", "n", "ok", "s", "pv", "pm", "d1", u.garr] + list(u.arrs) + list(OBJS)
-    if u.unit_kind == "function":
-        vs.append("res")
+def host_names(cu, host_vars=None):
+    """lower-case names the surroundings contribute to a unit's scope: (procedures, types,
+    variables).  For the unit under test: the module it lives in / USEs, and its own internal
+    procedures; for an internal procedure additionally the host's variables, dummy arguments and
+    result variable (`host_vars`: the host's `variables` as the model computed them)."""
+    u = cu.host if cu.ctx == "internal" else cu
     types = list(TYPES)
-    procs = list(u.module_funcs) + list(u.module_subs) + [f"{t}_{b}" for t, td in u.types.items() for b in td["bound"]] + [UNIT_NAME]
-    return vs, types, procs
+    procs = list(u.module_funcs) + list(u.module_subs) + [f"{t}_{b}" for t, td in u.types.items() for b in td["bound"]]
+    if u.ctx in ("same-module", "other-module"):
+        procs.append(UNIT_NAME)      # a sibling of itself in its module; a program / external procedure has no host
+    procs += list(u.internal_names) + list(u.spec.iface_ext) + list(u.generics)
+    hv = [u.garr]
+    if cu.ctx == "internal":
+        hv += list(host_vars or []) + [a.lower() for a in u.spec.args] + ([u.spec.ret.lower()] if u.spec.ret else [])
+    return procs, types, hv
 
 
 # --------------------------------------------------------------------------
@@ -1090,7 +1622,8 @@ class Impl:
             return list(self.rd.FortranReader(str(path), s.docmark, s.predocmark, s.docmark_alt, s.predocmark_alt))
 
     def run(self, srcdir: Path):
-        """(pre-correlate chains, post-correlate identities) of the unit under test, or an error string"""
+        """per unit (the unit under test and its internal procedures): (pre-correlate chains,
+        post-correlate identities, scope), or an error string"""
         self.sf.namelist = self.sf.NameSelector()
         settings = self.st.ProjectSettings(src_dir=[srcdir], preprocess=False, dbg=False)
         try:
@@ -1099,11 +1632,19 @@ class Impl:
             unit = self.find_unit(proj)
             if unit is None:
                 return ("err", "unit under test not found after parsing")
-            pre = [[str(x) for x in ch] for ch in unit.calls]
+            units = [unit] + list(getattr(unit, "subroutines", [])) + list(getattr(unit, "functions", []))
+            pre, scope = {}, {}
+            for un in units:
+                nm = un.name.lower()
+                pre[nm] = [[str(x) for x in ch] for ch in un.calls]
+                scope[nm] = {"variables": [str(v.name).lower() for v in un.variables],
+                             "args": [str(getattr(a, "name", a)).lower() for a in getattr(un, "args", [])],
+                             "retvar": (str(getattr(un.retvar, "name", un.retvar)).lower()
+                                        if getattr(un, "retvar", None) is not None else None)}
             with common.quiet():
                 proj.correlate()
-            post = [self.ident(c) for c in unit.calls]
-            return ("ok", pre, post)
+            return ("ok", {un.name.lower(): (pre[un.name.lower()], [self.ident(c) for c in un.calls], scope[un.name.lower()])
+                           for un in units})
         except Exception as e:  # noqa
             return ("err", f"{type(e).__name__}: {e}")
 
@@ -1116,6 +1657,9 @@ class Impl:
             for p in list(m.subroutines) + list(m.functions):
                 if p.name.lower() == UNIT_NAME:
                     return p
+        for p in proj.procedures:
+            if p.name.lower() == UNIT_NAME:
+                return p
         return None
 
     def ident(self, c):
@@ -1126,6 +1670,10 @@ class Impl:
             return ("bound", str(getattr(c.parent, "name", "?")).lower(), c.name.lower())
         if isinstance(c, (sf.FortranSubroutine, sf.FortranFunction)):
             return ("proc", c.name.lower())
+        if isinstance(c, sf.FortranInterface) and not c.generic and not c.abstract:
+            return ("iface", c.name.lower())
+        if isinstance(c, sf.FortranInterface) and c.generic:
+            return ("generic", c.name.lower())
         return ("other:" + type(c).__name__, str(getattr(c, "name", "?")).lower())
 
 
@@ -1136,7 +1684,7 @@ class Impl:
 MICRO_ALPHA = ["a", "b1", "_", " ", "(", ")", "()", "%", " % ", "call ", "if", "if (", ",", "=", "f(", "x)", "\t",
                "CALL", "If ", "=>", "'", '"', "''", "+", "1", ":", "go to (", "goto(", "1,2", "end", " block",
                "associate (", "format (", "10 ", "integer", "type", " is", "::", "real", "use ", "data", "intent(in)",
-               "class", " default", "double  precision", "dimension", "/", "bind(c)", "function", " ::", "lbl:"]
+               "class", " default", "double  precision", "dimension", "/", "bind(c)", "function", " ::", "lbl:", "common", " /"]
 STARTERS = {
     "subcall": ["call ", "CALL  ", "if (a) call ", "if(x)call ", "if (f()) call ", "call a%", "call a % b()%", "If (a) (b) call "],
     "callre": ["a%b(", "a () % c(", "f (", "x%y%z(", "a%b()%c", " q % r (", "a%()"],
@@ -1160,11 +1708,14 @@ STARTERS = {
                   "parameter/", "parameter ("],
     "USE_RE": ["use m", "use :: m", "use, intrinsic :: iso", "use,non_intrinsic::m", "use m, only: x", "use  m ,", "usem",
                "use ::", "use, intrinsic m", "use , non_intrinsic :: m", "use m x", "USE M"],
+    "COMMON_RE": ["common /blk/ a", "common a", "COMMON /b/ x(10), y", "common/blk/a(3)", "common / blk / a", "common //  a",
+                  "common", "common ", "common /blk/", "common /blk/ (", "commonx", "common x(10)", "common\t/b/\tq", "common / / a",
+                  "common /b c/ a", "Common  zz", "common /b/ /c/ d", " common a"],
 }
 QS_ALPHA = ["'", '"', "'", '"', "''", '""', ";", ";", " ; ", ";;", "a", " ", "x = 1", "call f(1)", "it", "s", "(", ")", "!", "&",
             "print *, ", "'a;b'", '"c;d"', "\"it's\"", "'say \"no\"'", ","]
 TAILS = ["", " ", "x", " x", "(", " (", "::", " :: ", ",", "*", "/", "=", ")", " y)", "1", "_", ":"]
-RX_NAMES = ["FORMAT_RE", "ARITH_GOTO_RE", "BLOCK_RE", "ASSOCIATE_RE", "END_RE", "VARIABLE_RE", "ATTRIB_RE", "USE_RE"]
+RX_NAMES = ["FORMAT_RE", "ARITH_GOTO_RE", "BLOCK_RE", "ASSOCIATE_RE", "END_RE", "VARIABLE_RE", "ATTRIB_RE", "USE_RE", "COMMON_RE"]
 
 
 def real_mask(sf, line: str) -> str:
@@ -1187,7 +1738,7 @@ def micro_stream(impl: Impl, drv: Driver, rng, n, rep: Report, qs_len: int = 6):
     var_re = re.compile(FC.VARIABLE_STRING.format(""), re.IGNORECASE)
     rx = {"FORMAT_RE": FC.FORMAT_RE, "ARITH_GOTO_RE": FC.ARITH_GOTO_RE, "BLOCK_RE": FC.BLOCK_RE,
           "ASSOCIATE_RE": FC.ASSOCIATE_RE, "END_RE": FC.END_RE, "VARIABLE_RE": var_re, "ATTRIB_RE": FC.ATTRIB_RE,
-          "USE_RE": FC.USE_RE}
+          "USE_RE": FC.USE_RE, "COMMON_RE": FC.COMMON_RE}
     reqs, exp = [], []
     for k in range(n):
         s = "".join(rng.choice(MICRO_ALPHA) for _ in range(rng.randint(0, 9)))
@@ -1269,50 +1820,64 @@ def micro_stream(impl: Impl, drv: Driver, rng, n, rep: Report, qs_len: int = 6):
 
 
 def make_case(seed_tuple):
+    """(rng, universe, statement-kind histogram, bodies): one executable part per unit - the unit
+    under test first, then its internal procedures"""
     rng = random.Random(str(seed_tuple))
     u = Universe(rng)
-    g = Gen(rng, u)
-    n = rng.choice([2, 3, 4, 5, 6, 8])
-    body = [g.stmt(0) for _ in range(n)]
-    return rng, u, g, body
+    kinds = {}
+    bodies = []
+    for cu in u.units():
+        g = Gen(rng, cu)
+        g.kinds = kinds
+        n = rng.choice([2, 3, 4, 5, 6, 8]) if cu is u else rng.choice([1, 2, 3, 4])
+        bodies.append([g.stmt(0) for _ in range(n)])
+    return rng, u, kinds, bodies
 
 
-def render_case(u: Universe, body, layout_seed):
+def render_case(u: Universe, bodies, layout_seed):
     rr = random.Random(str(layout_seed))
-    out = []
-    Render(rr).stmts(body, out)
+    per = {}
     feat = set()
-    logical = []
-    phys = layout(rr, out, feat, logical)
-    lines, head = build_file(u, phys)
-    return out, lines, head, feat, logical
+    for cu, body in zip(u.units(), bodies):
+        out = []
+        Render(rr).stmts(body, out)
+        logical = []
+        phys = layout(rr, out, feat, logical)
+        per[cu.name] = {"stmts": out, "phys": phys, "logical": logical}
+    if u.internals:
+        per[u.name]["contains"] = rr.choice(["contains", "contains", "CONTAINS", "Contains"])
+        feat.add("internal-procedures")
+    return per, build_file(u, per), feat
 
 
-def unit_lines_from_reader(rl: list[str], head: str) -> list[str] | None:
-    for k, l in enumerate(rl):
-        if l.lower() == head.lower():
-            return rl[k + 1:]
-    return None
-
-
-def exec_slice(u: Universe, ul: list[str] | None) -> list[str] | None:
-    """the reader's statements of the executable part: after the fixed specification part, up to
-    the END statement of the unit; documentation items are not statements"""
-    if ul is None:
+def unit_slices(cu, rl: list[str] | None, start_at: int = 0):
+    """From the reader's statements of the file: the statements of unit `cu` itself - its
+    specification part without the lines of nested interface blocks, its executable part, its END
+    statement - and the executable part alone.  Returns (model lines, executable statements,
+    index after the unit's first statement) or None."""
+    if rl is None:
         return None
-    n_pre = len(decl_lines(u)) + (2 if u.unit_kind == "program" else 1)
-    end = f"end {u.unit_kind} {UNIT_NAME}"
-    out = []
-    for l in ul[n_pre:]:
-        if l.lower() == end:
-            return [x for x in out if not x.startswith("!")]
-        out.append(l)
+    head = cu.spec.head.lower()
+    k0 = next((k for k in range(start_at, len(rl)) if rl[k].lower() == head), None)
+    if k0 is None:
+        return None
+    mask = cu.spec.line_mask()
+    spec = rl[k0 + 1:k0 + 1 + len(mask)]
+    if len(spec) != len(mask):
+        return None
+    own = [l for l, m in zip(spec, mask) if m]
+    end = f"end {cu.unit_kind} {cu.name}"
+    ex = []
+    for l in rl[k0 + 1 + len(mask):]:
+        if l.lower() == end or (cu.internals and l.lower() == "contains"):
+            return own + ex + [end], [x for x in ex if not x.startswith("!")], k0 + 1
+        ex.append(l)
     return None
 
 
-def evaluate(impl: Impl, drv_requests, u, body, layout_seed, d: Path):
+def evaluate(impl: Impl, u, bodies, layout_seed, d: Path):
     """Run the real code on one case; returns a dict with everything the comparison needs."""
-    stmts, lines, head, feat, logical = render_case(u, body, layout_seed)
+    per, lines, feat = render_case(u, bodies, layout_seed)
     src = d / "src"
     src.mkdir(exist_ok=True)
     for old in src.glob("*.f90"):
@@ -1324,9 +1889,17 @@ def evaluate(impl: Impl, drv_requests, u, body, layout_seed, d: Path):
         rl = impl.reader_lines(path)
     except Exception as e:  # noqa
         rl = None
-    ul = unit_lines_from_reader(rl, head) if rl is not None else None
-    return {"stmts": stmts, "lines": lines, "head": head, "feat": feat, "impl": res, "unit_lines": ul,
-            "logical": logical, "exec_statements": exec_slice(u, ul)}
+    units = []
+    at = 0
+    for cu, body in zip(u.units(), bodies):
+        sl = unit_slices(cu, rl, at)
+        if sl is not None:
+            at = sl[2]
+        r1 = res[1].get(cu.name) if res[0] == "ok" else None
+        units.append({"cu": cu, "name": cu.name, "body": body, "stmts": per[cu.name]["stmts"],
+                      "logical": per[cu.name]["logical"], "unit_lines": sl[0] if sl else None,
+                      "exec_statements": sl[1] if sl else None, "impl": r1})
+    return {"lines": lines, "feat": feat, "impl": res, "units": units}
 
 
 def oracle(u: Universe, body, post):
@@ -1432,83 +2005,125 @@ def run(tier: str, seed: int, replay: str | None = None) -> int:
     n_unit = 1500 if tier == "quick" else 15000
     ev_micro, bad_micro, micro_hist = micro_stream(impl, drv, rng, n_micro, rep, 6 if tier == "quick" else 8)
 
-    kinds_hist, feat_hist, gate_hist = {}, {}, {}
+    kinds_hist, feat_hist, gate_hist, spec_hist = {}, {}, {}, {}
     distinct = set()
     samples = []
     n_bad_corr = 0
     n_oracle_fail = 0
     n_impl_err = 0
     results = []
+    n_units_total = 0
     with common.scratch_dir() as d:
         for k in range(n_unit):
-            _, u, g, body = make_case((seed, "unit", k))
-            ev = evaluate(impl, None, u, body, (seed, "layout", k), d)
-            ev.update(u=u, body=body, k=k, kinds=g.kinds)
+            _, u, kinds, bodies = make_case((seed, "unit", k))
+            ev = evaluate(impl, u, bodies, (seed, "layout", k), d)
+            ev.update(u=u, bodies=bodies, k=k, kinds=kinds)
             results.append(ev)
-        # ---- model, batched
-        reqs = []
-        for ev in results:
-            reqs.append(["c08.unit"] + (ev["unit_lines"] or []))
-        model = drv.batch(reqs)
-        model_l = drv.batch([["c08.lines"] + ev["logical"] for ev in results])
-        reqs2 = []
-        for ev in results:
-            vs, ts, ps = visible_names(ev["u"])
-            pre = ev["impl"][1] if ev["impl"][0] == "ok" else []
-            reqs2.append(["c08.resolve", ",".join(vs), ",".join(ts), ",".join(ps)] + ["%".join(c) for c in pre])
-        model2 = drv.batch(reqs2)
+        # ---- model, batched: one request per unit (unit under test + its internal procedures)
+        flat = [(ev, un) for ev in results for un in ev["units"]]
+        n_units_total = len(flat)
+        model = drv.batch([["c08.unit"] + (un["unit_lines"] or []) for _, un in flat])
+        model_l = drv.batch([["c08.lines"] + un["logical"] for _, un in flat])
+
+        # the scope of the unit: the specification part as statements (attributes and names as
+        # written) -> `unit.variables` after `_cleanup`, and the chains of length 1 `correlate`
+        # keeps.  The hosts first: an internal procedure sees its host's variables.
+        def scope_req(un, host_vars=None):
+            cu = un["cu"]
+            ps, ts, hv = host_names(cu, host_vars)
+            sp_ = cu.spec
+            pre = un["impl"][0] if un["impl"] else []
+            fields = sp_.model_fields()
+            return (["c08.scope", ",".join(sp_.args), sp_.ret or "-", "1" if sp_.ret_typed else "0",
+                     ",".join(ps), ",".join(ts), ",".join(hv), str(len(fields))] + fields + ["%".join(c) for c in pre])
+
+        hosts = [(ev, un) for ev, un in flat if un["cu"].ctx != "internal"]
+        host_resp = drv.batch([scope_req(un) for _, un in hosts])
+        host_vars = {}
+        for (ev, un), r_ in zip(hosts, host_resp):
+            un["model2"] = r_
+            host_vars[ev["k"]] = [x for x in r_[1].split(",") if x] if len(r_) > 1 and r_[0] == "ok" else []
+        inners = [(ev, un) for ev, un in flat if un["cu"].ctx == "internal"]
+        for (ev, un), r_ in zip(inners, drv.batch([scope_req(un, host_vars[ev["k"]]) for ev, un in inners])):
+            un["model2"] = r_
         gate_reqs = []
         for ev in results[: 300 if tier == "quick" else 2000]:
-            for l in (ev["unit_lines"] or [])[:60]:
-                gate_reqs.append(["c08.gate", "0", real_mask(impl.sf, l)])
+            for un in ev["units"]:
+                for l in (un["unit_lines"] or [])[:60]:
+                    gate_reqs.append(["c08.gate", "0", real_mask(impl.sf, l)])
         for gname in drv.batch(gate_reqs):
             gate_hist[gname[1]] = gate_hist.get(gname[1], 0) + 1
+        for (ev, un), mo, mol in zip(flat, model, model_l):
+            un["model"], un["model_l"] = mo, mol
 
-        for ev, mo, mo2, mol in zip(results, model, model2, model_l):
-            k, u, body = ev["k"], ev["u"], ev["body"]
+        for ev in results:
+            k, u = ev["k"], ev["u"]
             for kk, c in ev["kinds"].items():
                 kinds_hist[kk] = kinds_hist.get(kk, 0) + c
             for f in ev["feat"]:
                 feat_hist[f] = feat_hist.get(f, 0) + 1
             feat_hist["unit:" + u.unit_kind] = feat_hist.get("unit:" + u.unit_kind, 0) + 1
+            feat_hist["context:" + u.ctx] = feat_hist.get("context:" + u.ctx, 0) + 1
             if u.shadow:
                 feat_hist["local-array-hides-module-procedure"] = feat_hist.get("local-array-hides-module-procedure", 0) + 1
             if u.collide:
                 feat_hist["colliding-names"] = feat_hist.get("colliding-names", 0) + 1
-            case = {"stream": "unit", "case": k, "file": ev["lines"], "unit_statements": ev["unit_lines"]}
-            if ev["impl"][0] != "ok" or ev["unit_lines"] is None:
+            if u.generics:
+                feat_hist["generic-interfaces"] = feat_hist.get("generic-interfaces", 0) + 1
+            for iu in u.internals:
+                feat_hist["internal:" + iu.unit_kind] = feat_hist.get("internal:" + iu.unit_kind, 0) + 1
+            case0 = {"stream": "unit", "case": k, "file": ev["lines"]}
+            if ev["impl"][0] != "ok" or any(un["unit_lines"] is None or un["impl"] is None for un in ev["units"]):
                 n_impl_err += 1
-                rep.tie_broken(f"unit case {k}: the implementation could not process a generated legal unit: {ev['impl'][1]}",
-                               dict(case, impl=ev["impl"]))
-                rep.failing_input(dict(case, why="FORD raised on a legal executable part: " + str(ev["impl"][1])), None)
+                why = ev["impl"][1] if ev["impl"][0] != "ok" else "a generated unit was not found in the parsed project / reader output"
+                rep.tie_broken(f"unit case {k}: the implementation could not process a generated legal unit: {why}",
+                               dict(case0, impl=str(why)))
+                rep.failing_input(dict(case0, why="FORD raised on / lost a legal generated unit: " + str(why)), None)
                 continue
-            _, pre, post = ev["impl"]
-            pre_s = ["%".join(c) for c in pre]
-            if pre_s:
-                distinct.add(common.digest(ev["unit_lines"]))
-            # (a) correspondence before correlate
-            if mo[0] != "ok" or mo[1:] != pre_s:
-                n_bad_corr += 1
-                rep.tie_broken(f"correspondence unit/pre-correlate: model and implementation differ on case {k}",
-                               dict(case, impl=pre_s, model=mo))
-            # (a0) statement separation: the statements the real reader delivers for the executable
-            #      part == the model's `unitStatements` of the logical lines (`;` outside literals)
-            if ev["exec_statements"] is None or mol[0] != "ok" or mol[1:] != ev["exec_statements"]:
-                n_bad_corr += 1
-                rep.tie_broken(f"correspondence unit/statement-separation: model and reader differ on case {k}",
-                               dict(case, logical_lines=ev["logical"], reader=ev["exec_statements"], model=mol))
-            # (a') after correlate, chains of length 1
-            post_names = [p[-1] for p in post]
-            kept1 = [c[0] for c in pre if len(c) == 1 and c[0] in post_names]
-            if mo2[0] != "ok" or mo2[1:] != kept1:
-                n_bad_corr += 1
-                rep.tie_broken(f"correspondence unit/post-correlate: model and implementation differ on case {k}",
-                               dict(case, impl=kept1, model=mo2, pre=pre_s))
-            # (b) property oracle
-            why, sp = oracle(u, body, post)
-            if len(samples) < 3 and len(pre) >= 3:
-                samples.append({"unit_statements": ev["stmts"], "recorded": [list(p) for p in post]})
-            if why is not None:
+            for ui, un in enumerate(ev["units"]):
+                cu, body = un["cu"], un["body"]
+                mo, mo2, mol = un["model"], un["model2"], un["model_l"]
+                pre, post, scope = un["impl"]
+                case = dict(case0, unit=un["name"], unit_statements=un["unit_lines"])
+                pre_s = ["%".join(c) for c in pre]
+                for f in cu.spec.forms:
+                    spec_hist[f] = spec_hist.get(f, 0) + 1
+                if pre_s:
+                    distinct.add(common.digest(un["unit_lines"]))
+                # (a) correspondence before correlate
+                if mo[0] != "ok" or mo[1:] != pre_s:
+                    n_bad_corr += 1
+                    rep.tie_broken(f"correspondence unit/pre-correlate: model and implementation differ on case {k} ({un['name']})",
+                                   dict(case, impl=pre_s, model=mo))
+                # (a0) statement separation: the statements the real reader delivers for the executable
+                #      part == the model's `unitStatements` of the logical lines (`;` outside literals)
+                if un["exec_statements"] is None or mol[0] != "ok" or mol[1:] != un["exec_statements"]:
+                    n_bad_corr += 1
+                    rep.tie_broken(f"correspondence unit/statement-separation: model and reader differ on case {k} ({un['name']})",
+                                   dict(case, logical_lines=un["logical"], reader=un["exec_statements"], model=mol))
+                # (a') after correlate, chains of length 1
+                post_names = [p[-1] for p in post]
+                kept1 = [c[0] for c in pre if len(c) == 1 and c[0] in post_names]
+                if mo2[0] != "ok" or mo2[2:] != kept1:
+                    n_bad_corr += 1
+                    rep.tie_broken(f"correspondence unit/post-correlate: model and implementation differ on case {k} ({un['name']})",
+                                   dict(case, impl=kept1, model=mo2, pre=pre_s))
+                # (a'') the scope: `unit.variables` after `_cleanup` == the model's `scopeVarNames` of the
+                #       generated specification part; dummy arguments and result variable as generated
+                m_vars = [x for x in mo2[1].split(",") if x] if len(mo2) > 1 else None
+                want_args = [a.lower() for a in cu.spec.args]
+                want_ret = cu.spec.ret.lower() if cu.spec.ret else None
+                if mo2[0] != "ok" or m_vars != scope["variables"] or scope["args"] != want_args or scope["retvar"] != want_ret:
+                    n_bad_corr += 1
+                    rep.tie_broken(f"correspondence unit/scope-variables: model and implementation differ on case {k} ({un['name']})",
+                                   dict(case, impl=scope, model=mo2[:2], generated_args=want_args, generated_result=want_ret,
+                                        specification_part=cu.spec.lines()))
+                # (b) property oracle
+                why, sp = oracle(cu, body, post)
+                if len(samples) < 3 and len(pre) >= 3:
+                    samples.append({"unit_statements": un["stmts"], "recorded": [list(p) for p in post]})
+                if why is None:
+                    continue
                 n_oracle_fail += 1
                 text, classes, unexplained = why
                 full = dict(case, expected=sorted(expected_set(sp), key=str), observed=post, why=text,
@@ -1516,18 +2131,23 @@ def run(tier: str, seed: int, replay: str | None = None) -> int:
                 if unexplained and len(rep.violations) >= 3:
                     rep.failing_input(full, None)
                 elif unexplained:
-                    # shrink towards a small unexplained failure
-                    def pred(b):
-                        e2 = evaluate(impl, None, u, b, (seed, "layout", k), d)
-                        if e2["impl"][0] != "ok":
+                    # shrink the executable part of this unit towards a small unexplained failure
+                    def with_body(b, ui=ui, ev=ev):
+                        bs = list(ev["bodies"])
+                        bs[ui] = b
+                        return evaluate(impl, ev["u"], bs, (seed, "layout", ev["k"]), d)
+
+                    def pred(b, ui=ui, cu=cu):
+                        e2 = with_body(b)
+                        if e2["impl"][0] != "ok" or e2["units"][ui]["impl"] is None:
                             return False
-                        w2, _ = oracle(u, b, e2["impl"][2])
+                        w2, _ = oracle(cu, b, e2["units"][ui]["impl"][1])
                         return w2 is not None and bool(w2[2])
-                    small = shrink(impl, u, body, (seed, "layout", k), d, pred)
-                    e3 = evaluate(impl, None, u, small, (seed, "layout", k), d)
-                    w3, sp3 = oracle(u, small, e3["impl"][2])
-                    full["shrunk"] = {"file": e3["lines"], "unit_statements": e3["stmts"],
-                                      "expected": sorted(expected_set(sp3), key=str), "observed": e3["impl"][2],
+                    small = shrink(impl, cu, body, (seed, "layout", k), d, pred)
+                    e3 = with_body(small)
+                    w3, sp3 = oracle(cu, small, e3["units"][ui]["impl"][1])
+                    full["shrunk"] = {"file": e3["lines"], "unit": un["name"], "unit_statements": e3["units"][ui]["stmts"],
+                                      "expected": sorted(expected_set(sp3), key=str), "observed": e3["units"][ui]["impl"][1],
                                       "why": w3[0] if w3 else None}
                     rep.failing_input(full, None)
                 else:
@@ -1535,26 +2155,31 @@ def run(tier: str, seed: int, replay: str | None = None) -> int:
                         rep.failing_input(full, c)
     drv.close()
     rep.coverage.update(
-        evaluations=ev_micro + len(results),
+        evaluations=ev_micro + n_units_total,
         distinct_nontrivial=len(distinct),
-        rule="unit cases are (random universe of overlapping names x random executable part x random legal layout); "
+        rule="unit cases are (random universe of overlapping names x random specification part x random executable part "
+             "x random legal layout) for a module procedure / main program and its internal procedures; "
              "non-trivial = the real parser recorded at least one call chain for the unit; distinct by digest of the "
              "statements the reader delivered",
         samples=samples,
-        traces_validated_against_impl=ev_micro + 3 * len(results),
+        traces_validated_against_impl=ev_micro + 4 * n_units_total,
         correspondence_disagreements=n_bad_corr + bad_micro,
         oracle_failures=n_oracle_fail,
         implementation_errors=n_impl_err,
         statement_kind_histogram=dict(sorted(kinds_hist.items())),
         layout_feature_histogram=dict(sorted(feat_hist.items())),
         cascade_branch_histogram=dict(sorted(gate_hist.items())),
+        specification_part_histogram=dict(sorted(spec_hist.items())),
         micro_histogram=micro_hist,
         generated_tables={"intrinsics": tinfo.get("intrinsics"), "cascade_branches": len(tinfo.get("cascade", [])),
-                          "interpreted_guards": tinfo.get("guards")},
+                          "interpreted_guards": tinfo.get("guards"), "scope": tinfo.get("scope")},
     )
     rep.assumptions += [
         "identifiers of the generated units are not Fortran declaration keywords; units under test contain no "
-        "internal procedures, derived-type definitions, interfaces or module-level statements",
+        "derived-type definitions or generic / abstract interfaces; the statements of a unit are handed to the model "
+        "without those of its nested containers (internal procedures after CONTAINS, interface bodies), which the "
+        "generator delimits - a mis-nesting by the real parser shows as a difference of unit.calls",
+        "dummy procedures (a dummy argument that is called) are not generated",
         "CPython re is on the implementation side only; the hand-written recognisers are its deterministic reading, "
         "validated on the micro stream; FORMAT_RE and ARITH_GOTO_RE are not read by hand: their re._parser parse "
         "trees are regenerated on every run and interpreted by the model (list-of-successes matcher, ASCII "
